@@ -318,8 +318,58 @@ def c14_3(ctx):
     ctx.check(ok, "proof-check-registered", ctx.where(m), "merkleblock messages are not post-processed by the proof verifier")
 
 
+def ltc_sections_in_wire_order(ctx):
+    """a Litecoin block is a vector of transactions in Litecoin's extended form: after the outputs come the witness stacks (flag bit
+    0x01) and only then the MWEB type byte (flag bit 0x08).  Whatever the spelling of LTCTx.parse, every read of a witness item
+    precedes the read of the MWEB byte -- with both bits set (flag 0x09) any other order takes the witness count for the MWEB byte
+    and the block is rejected or mis-parsed"""
+    f = ctx.func("pycoin/coins/litecoin/__init__.py", "LTCTx.parse")
+    node = sym.expanded(ctx, f)
+    defs = df.single_defs(node)
+    order = []
+    all_defs = {}
+    for a_ in ast.walk(node):
+        if isinstance(a_, ast.Assign) and len(a_.targets) == 1 and isinstance(a_.targets[0], ast.Name):
+            all_defs.setdefault(a_.targets[0].id, []).append(a_.value)
+        elif isinstance(a_, ast.AnnAssign) and isinstance(a_.target, ast.Name) and a_.value is not None:
+            all_defs.setdefault(a_.target.id, []).append(a_.value)
+
+    def visit(n, under_mweb):
+        if isinstance(n, ast.If):
+            cands = [df.expand(n.test, defs)]
+            for nm_ in [x.id for x in ast.walk(n.test) if isinstance(x, ast.Name)]:
+                cands += all_defs.get(nm_, [])
+            is_mweb = any(isinstance(x, ast.BinOp) and isinstance(x.op, ast.BitAnd) and any(df.const_int(y) == 8 for y in (x.left, x.right)) for t in cands for x in ast.walk(t))
+            for c in ast.iter_child_nodes(n):
+                visit(c, under_mweb or (is_mweb and c in n.body))
+            return
+        if isinstance(n, ast.Call):
+            t = norm(n.func)
+            if t.endswith("parse_satoshi_string"):
+                order.append(("witness", n))
+            elif under_mweb and t.endswith(".read"):
+                order.append(("mweb", n))
+        for c in ast.iter_child_nodes(n):
+            visit(c, under_mweb)
+    visit(node, False)
+    kinds = [k for k, _n in order]
+    if "witness" not in kinds or "mweb" not in kinds:
+        ctx.undecided("ltc-sections-in-wire-order", ctx.where(f), "LTCTx.parse: the witness reads (parse_satoshi_string) and the MWEB byte read (under a test of flag bit 0x08) were not both found in a form this clause reads")
+        return
+    first_mweb = kinds.index("mweb")
+    late = [n for k, n in order[first_mweb:] if k == "witness"]
+    ctx.check(not late, "ltc-sections-in-wire-order", ctx.where(f, late[0]) if late else ctx.where(f),
+              "LTCTx.parse reads the MWEB type byte before the witness stacks; Litecoin serialises the witnesses first: a transaction with flag 0x09 (witness and MWEB) is misaligned from there on and its block is rejected or mis-parsed",
+              sample={"reads_in_order": kinds})
+
+
+def c14_1b(ctx):
+    c14_1(ctx)
+    ltc_sections_in_wire_order(ctx)
+
+
 OBLIGATIONS = [
-    Ob("C14.1", "header writer/reader trace, id = dsha256(header), no stale memo, block writer/reader", c14_1, floor=10, engines="SYM,DF", breaks_if="hash(); set_nonce(n); hash()"),
+    Ob("C14.1", "header writer/reader trace, id = dsha256(header), no stale memo, block writer/reader; Litecoin sections in wire order", c14_1b, floor=10, engines="SYM,DF", breaks_if="hash(); set_nonce(n); hash()"),
     Ob("C14.2", "merkle: per-level duplication of the odd element, pairwise hash, mismatch rejection reached with defaults", c14_2, floor=8, engines="SYM", breaks_if="blocks of 5, 6, 9-14 ... transactions"),
     Ob("C14.3", "BIP37 rejection guards: extra hashes, unconsumed flag bytes, padding bits (interval), root mismatch, duplicate children", c14_3, floor=3, engines="SYM", breaks_if="proof whose last flag byte has exactly the first padding bit set"),
 ]
